@@ -162,16 +162,20 @@ fn runs_of(o: &AnyBv) -> Runs {
 
 fn len_of(o: &AnyBv) -> usize { match o { AnyBv::Plain(b) => b.len(), AnyBv::Sparse(b) => b.len(), AnyBv::RL(b) => b.len() } }
 
+fn rng2(s: &mut u64) -> usize { *s ^= *s << 13; *s ^= *s >> 7; *s ^= *s << 17; (*s >> 1) as usize }
+
 /// Random behaviours of the object machine on large contents.
 pub fn record_conv(seed: u64, thorough: bool, path: &str) -> Value {
     let mut rng = Rng::new(seed);
     let mut out = TraceOut::new();
     let mut steps = 0usize;
+    let mut seed2 = seed ^ 0x9E37_79B9_7F4A_7C15;
     let mut contents: Vec<(usize, Runs)> = Vec::new();
     for (_, len, runs) in bv::plain_regimes(&mut rng, false).into_iter().filter(|c| c.1 <= (1 << 19) && c.2.len() < 20000).take(if thorough { 14 } else { 6 }) { contents.push((len, runs)); }
     for (_, len, runs) in bv::rl_regimes(&mut rng, false).into_iter().filter(|c| c.1 <= (1 << 20)).take(if thorough { 8 } else { 4 }) { contents.push((len, runs)); }
     for (len, runs) in contents.iter() {
-        out.push(json!({"e": "def", "len": len, "runs": bv::runs_json(runs)}));
+        out.push(json!({"e": "def", "len": len, "runs": bv::runs_json(runs), "cum": bv::cum_json(runs)}));
+        let ones = bv::ones_of(runs);
         for rep in 0..(if thorough { 6 } else { 3 }) {
             let init = ["plain", "sparse", "rl"][rng.below(3)];
             let mut o = direct(init, rep, *len, runs);
@@ -192,8 +196,22 @@ pub fn record_conv(seed: u64, thorough: bool, path: &str) -> Value {
                     };
                     let fl = flags(&n);
                     let canon = canonical(type_of(&n), *len, runs, &fl);
+                    // answers through every support the object reports: random arguments and the edges of random runs
+                    let mut ans: Vec<Value> = Vec::new();
+                    for (flag, op, bound) in [("rank", "rank", *len + 1), ("select", "sel", ones + 1), ("select_zero", "sel0", *len - ones + 1), ("pred_succ", "pred", *len + 1), ("pred_succ", "succ", *len + 1)] {
+                        if !fl[flag].as_bool().unwrap() { continue; }
+                        let mut args: Vec<usize> = (0..6).map(|_| rng2(&mut seed2) % bound).collect();
+                        if !runs.is_empty() {
+                            for _ in 0..3 {
+                                let k = rng2(&mut seed2) % runs.len();
+                                let before: usize = runs[..k].iter().map(|r| r.1).sum();
+                                match op { "sel" => args.extend([before, before + runs[k].1 - 1]), "sel0" => args.extend([(runs[k].0 - before).saturating_sub(1), runs[k].0 - before]), _ => args.extend([runs[k].0, runs[k].0 + runs[k].1]) }
+                            }
+                        }
+                        for a in args { ans.push(json!({"op": op, "a": a, "r": n.query(op, a)})); }
+                    }
                     let ev = json!({"e": "o_call", "c": c, "type": type_of(&n), "flags": fl, "len": len_of(&n), "runs": bv::runs_json(&runs_of(&n)),
-                                    "eq": same(&n, &canon), "bytes_eq": bytes_of(&n) == bytes_of(&canon)});
+                                    "eq": same(&n, &canon), "bytes_eq": bytes_of(&n) == bytes_of(&canon), "ans": ans});
                     std::mem::swap(&mut n, &mut o);
                     ev
                 });
